@@ -42,6 +42,7 @@ class StreamTransport(Transport):
         """Set up stream transport."""
         self.reader: asyncio.StreamReader | None = None
         self.writer: asyncio.StreamWriter | None = None
+        self._skip_line = False
 
     @abstractmethod
     async def _open_connection(
@@ -73,16 +74,24 @@ class StreamTransport(Transport):
         if self.reader is None:
             raise TransportError("Not connected to stream transport.")
 
-        try:
-            read = await self.reader.readuntil(TERMINATOR)
-        except asyncio.LimitOverrunError as err:
-            raise TransportReadError(err) from err
-        except asyncio.IncompleteReadError as err:
-            raise TransportReadError(err, err.partial) from err
-        except OSError as err:
-            raise TransportFailedError(
-                f"Failed reading from stream transport: {err}",
-            ) from err
+        while True:
+            try:
+                read = await self.reader.readuntil(TERMINATOR)
+            except asyncio.LimitOverrunError as err:
+                # The over-long data is still in the buffer. Drop it and
+                # skip the rest of that line, to not fail on it again.
+                await self.reader.readexactly(err.consumed)
+                self._skip_line = True
+                raise TransportReadError(err) from err
+            except asyncio.IncompleteReadError as err:
+                raise TransportReadError(err, err.partial) from err
+            except OSError as err:
+                raise TransportFailedError(
+                    f"Failed reading from stream transport: {err}",
+                ) from err
+            if not self._skip_line:
+                break
+            self._skip_line = False
 
         try:
             return read.decode()
